@@ -102,6 +102,8 @@ def fam2_chunk(chunk):
 def templates():
     K = lambda e: e
     return [("at", [0, 2, 4, 8, 9], lambda k: At("a", k), ["a"]),
+            ("at-after-at", [2, 4, 8], lambda k: Bin("or", At("a", Int(0)), At("a", k)), ["a"]),
+            ("at-before-at", [2, 4, 8], lambda k: Bin("or", At("a", k), At("a", Int(0))), ["a"]),
             ("in-lo", [0, 1, 4, 5, 9], lambda k: In("a", k, Int(9)), ["a"]),
             ("in-hi", [0, 3, 4, 7, 8], lambda k: In("a", Int(0), k), ["a"]),
             ("count-in", [0, 4, 5, 8], lambda k: Bin("==", CountIn("a", k, Int(12)), Int(2)), ["a"]),
@@ -270,7 +272,7 @@ def main():
     ck.cov["distinct_nontrivial"] = n13 + n2 + n4
     ck.cov["programs"] = n13 + n2 + n4
     ck.cov["rule"] = ("twin families: (1,3) every distinct C04 condition with strings etc. run normally, in fast mode and as `(C) or filesize < 0`; (2) every 4-byte "
-                      "window of 14 pool strings ranked best through an atom quality table, match lists vs default; (4) 15 templates x border K x {literal, one "
+                      "window of 14 pool strings ranked best through an atom quality table, match lists vs default; (4) 17 templates x border K x {literal, one "
                       "constant expression per operator, operand class and operand relation (same / zero operand / shared bits / disjoint bits) with run-time value K, external with compile-time value K, external redefined to K at "
                       "rules level and at scanner level}; each twin is one case, every case is compared with its twin and with the reference evaluator")
     ck.assumptions += ["fold-vs-VM agreement is judged by the reference evaluator's run-time value"]
